@@ -732,6 +732,8 @@ type cond =
 
 val pon_pli : job_view -> n
 
+val pon_payload_len : job_view -> n
+
 val seg_in_ok : sgl_seg -> bool
 
 val seg_out_ok : sgl_seg -> bool
